@@ -32,7 +32,8 @@ LEVEL = "exploration"
 TECHNIQUE = (
     "bounded exhaustive enumeration of NaN masks (every pair of fully-missing feature subset x sample subset, every isolated cell, "
     "every row/column minus one cell, every one-feature transform mismatch, every pair of per-field sample masks for cross-set models) "
-    "on real fits, compared with the real fit of the pre-deleted plain matrix and with numpy svd / the input values"
+    "on real fits (one and two sample dimensions; cross-set with and without the PCA step), compared with the real fit of the pre-deleted plain matrix "
+    "and with numpy svd / the input values"
 )
 RULE = (
     "single-set (EOF with standardize off/on, EOFRotator) x container {DataArray with two feature dims, Dataset of two variables, list of two arrays} "
@@ -42,6 +43,11 @@ RULE = (
     "fully missing feature or sample, each at fit and at transform; every (training feature subset, one feature added/removed/moved) transform mismatch with center on/off; "
     "cross-set (MCA, CPCCA alpha=.5, MCARotator) x every pair (sample mask of X, sample mask of Y) with <= 2 missing samples each "
     "(quick: at most 2 in total, n = 6; thorough: n = 8) and every pair of <= 1 missing feature per field with and without a missing sample; "
+    "cross-set with the PCA step on (MCA all/2 PCs, CPCCA, CCA, RDA, MCARotator, CPCCARotator with all PCs; CCA, RDA, CPCCARotator also without PCA) x "
+    "fully missing samples at equal positions of both fields (quick: none, every single sample, one pair; thorough: every set of <= 2) and one missing feature per field; "
+    "two sample dimensions (time x member = 3x2 quick, 4x2 thorough): EOF x every set of <= 2 (thorough <= 3) fully missing samples of the grid, whole slices and ragged "
+    "sets alike, x (center, standardize) in {(T,F),(T,T),(F,F)} (+(F,T) thorough) x {no, one} missing feature (quick: the full mask set for the centred models), "
+    "reference = fit of the stacked grid with those samples dropped beforehand; "
     "every isolated cell of X and of Y at fit and at transform of MCA. A case is non-trivial when a numeric comparison with the "
     "pre-deleted fit was evaluated on non-empty arrays; demanded rejections are tallied as outcome 'rejected:*'"
 )
@@ -55,7 +61,8 @@ ASSUMPTIONS = [
     "a sample that is missing in only one item of a list input (single-set) or in only one field (cross-set) may be refused or treated as deleted everywhere; "
     "a value at such a label in the field/item that does have data is not checked",
     "a call that raises the same exception type on NaN-free data in the same container is not a C06 matter (DESIGN 4.2): the clause is skipped and counted",
-    "use_pca=False, solver='full', center=True for all models; preprocessing flags other than standardize are C08's subject",
+    "solver='full'; use_pca and (center, standardize) vary only in the families that say so (n_pca_modes 'all' or 2, never the variance threshold); "
+    "other preprocessing flags are C08's subject",
 ]
 TALLY_KEYS = ("kind", "model", "container", "stage", "pattern")
 TRUSTED = ["statsmodels import shim (/verif/shims) so that xeofs.cross constructors can be called"]
@@ -162,6 +169,37 @@ def cases(tier, seed):
                     if quick and model == "MCARotator" and sm and fx and fy:
                         continue
                     out.append(dict(kind="cross_mask", model=model, container="da", n=nc, smx=sm, smy=sm, fmx=fx, fmy=fy))
+    # ---- D'': cross-set with the PCA step switched on (and the two named classes without it): fully missing samples at
+    #      the same positions of both fields; the reconstruction goes back through PCA.inverse_transform_data
+    one_c = [[]] + [[i] for i in range(nc)]
+    for model, pcas in (("MCA", ["all", 2]), ("CPCCA", ["all"]), ("CCA", [None, "all"]), ("RDA", [None, "all"]), ("MCARotator", ["all"]), ("CPCCARotator", [None, "all"])):
+        for pca in pcas:
+            rot = model in CROSS_BASE
+            if quick:
+                masks = [[], [2]] if rot else one_c + [[1, 4]]
+                if pca is None or pca == 2:
+                    masks = [[], [0], [2, 3]]
+            else:
+                masks = (one_c + [[1, 4]]) if rot else cm
+            for sm in masks:
+                out.append(dict(kind="cross_mask", model=model, container="da", n=nc, pca=pca, smx=sm, smy=sm, fmx=[], fmy=[]))
+            for fx, fy in (([0], []), ([], [2])) if quick else (([0], []), ([], [2]), ([1], [1])):
+                if quick and rot:
+                    continue
+                out.append(dict(kind="cross_mask", model=model, container="da", n=nc, pca=pca, smx=[2], smy=[2], fmx=fx, fmy=fy))
+    # ---- A'': two sample dimensions (time x member): every set of fully missing samples of the time-member grid, whole
+    #      slices and ragged ones alike, x (center, standardize); the reference stacks the grid and drops them beforehand
+    T2, M2 = (3, 2) if quick else (4, 2)
+    g = T2 * M2
+    gsubs = _subsets(g, 2 if quick else 3)
+    for center, std in ((True, False), (True, True), (False, False)) + (() if quick else ((False, True),)):
+        for fm in ([], [1]):
+            for sm in gsubs:
+                if quick and (fm or not center) and len(sm) != 1:
+                    continue  # quick: the full mask set for the centred models only
+                if not quick and fm and len(sm) > 2:
+                    continue
+                out.append(dict(kind="single_mask2", model="EOF", container="da_2s", n=g, grid=[T2, M2], center=center, standardize=std, fmask=fm, smask=sm))
     # ---- E: cross-set isolated cells
     for field in ("X", "Y"):
         for stage in ("fit", "transform"):
@@ -170,7 +208,7 @@ def cases(tier, seed):
                     if quick and (i + j) % 3:
                         continue
                     out.append(dict(kind="cross_isolated", model="MCA", container="da", n=nc, stage=stage, pattern="cell", field=field, i=i, j=j))
-    order = {"single_mask": 0, "cross_mask": 1, "isolated": 2, "transform_mismatch": 3, "single_listitem": 4, "cross_isolated": 5}
+    order = {"single_mask": 0, "single_mask2": 0.5, "cross_mask": 1, "isolated": 2, "transform_mismatch": 3, "single_listitem": 4, "cross_isolated": 5}
     out.sort(key=lambda c: (order[c["kind"]], len(c.get("fmask", [])) + len(c.get("smask", [])) + len(c.get("smx", [])) + len(c.get("smy", []))))
     return out
 
@@ -473,6 +511,84 @@ def _run_single_mask(case, seed):
     return acc.result(k=int(k))
 
 
+def _grid_matrix(obj, lead, lead_labels, T2, M2, allow_omitted=False):
+    """(T2*M2, len(lead_labels)) by label, rows in time-major order of the (time, member) grid."""
+    tl, ml = _tlab(T2), np.arange(M2) + 1
+    if allow_omitted:  # a time or member label all of whose samples are missing may be absent
+        have = {d: set(np.asarray(obj[d].values).tolist()) for d in ("time", "member") if d in obj.dims}
+        if len(have) == 2 and have["time"] <= set(tl.tolist()) and have["member"] <= set(ml.tolist()):
+            obj = obj.reindex(time=tl, member=ml)
+    return D.to_matrix(obj, ["time", "member"], [lead], {"time": tl, "member": ml, lead: lead_labels})
+
+
+def _run_single_mask2(case, seed):
+    """two sample dimensions: fully missing samples anywhere on the (time, member) grid."""
+    import xarray as xr
+    import xeofs as xe
+
+    T2, M2 = case["grid"]
+    n = T2 * M2
+    fm, sm = case["fmask"], case["smask"]
+    center, std = bool(case["center"]), bool(case["standardize"])
+    X = _base(n, seed, salt=21)
+    rows = [i for i in range(n) if i not in sm]
+    cols = [j for j in range(P) if j not in fm]
+    k = min(len(rows) - (1 if center else 0), len(cols))
+    modes = np.arange(1, k + 1)
+    per_member = [sum(1 for i in rows if i % M2 == mi) for mi in range(M2)]
+    per_time = [sum(1 for i in rows if i // M2 == ti) for ti in range(T2)]
+    acc = _Acc("EOF", container="da_2s", center=center, standardize=std, ragged=bool(len(set(per_member)) > 1 or len(set(per_time)) > 1))
+    xl = np.arange(P) * 10
+    Xm = _apply(X, fm, sm)
+    masked = xr.DataArray(Xm.reshape(T2, M2, P), dims=("time", "member", "x"), coords={"time": _tlab(T2), "member": np.arange(M2) + 1, "x": xl}, name="field")
+    plain = _plain(X, rows, cols)
+    fl = plain["f"].values
+    t = _tlab(n)
+    kw = dict(n_modes=k, center=center, standardize=std, use_coslat=False, solver="full", random_state=3)
+    with warnings.catch_warnings():
+        warnings.simplefilter("ignore")
+        d = xe.single.EOF(**kw).fit(plain, dim="time")
+        m = xe.single.EOF(**kw).fit(masked, dim=("time", "member"))
+        sv_m = np.asarray(m.singular_values().sel(mode=modes).values)
+        sv_d = np.asarray(d.singular_values().sel(mode=modes).values)
+        s1 = float(max(sv_d[0], 1e-300))
+        acc.vector("singular_values", sv_m, sv_d)
+        acc.vector("explained_variance", np.asarray(m.explained_variance().sel(mode=modes).values), np.asarray(d.explained_variance().sel(mode=modes).values))
+        if not std:  # absolute anchor, numpy only
+            sub = X[np.ix_(rows, cols)]
+            sref = np.linalg.svd(sub - sub.mean(axis=0, keepdims=True) if center else sub, compute_uv=False)[:k]
+            acc.vector("singular_values_vs_numpy", sv_m, sref, scale=float(sref[0]))
+        try:
+            Cm = D.to_matrix(m.components(), ["x"], ["mode"], {"x": xl, "mode": modes})
+            acc.embedded("components", Cm, _flat_plain(d.components(), "f", fl, "mode", modes), cols)
+        except D.LabelError as e:
+            acc.bad("components_labels", str(e))
+        Sd = _scores_matrix(d.scores(), t[rows], modes)
+        try:
+            acc.embedded("scores", _grid_matrix(m.scores(), "mode", modes, T2, M2), Sd, rows, scale=s1)
+        except D.LabelError as e:
+            acc.bad("scores_labels", str(e))
+        Td = _scores_matrix(d.transform(plain), t[rows], modes)
+        try:
+            acc.embedded("transform", _grid_matrix(m.transform(masked), "mode", modes, T2, M2, allow_omitted=True), Td, rows, scale=s1)
+        except D.LabelError as e:
+            acc.bad("transform_labels", str(e))
+        Rd = _flat_plain(d.inverse_transform(d.scores()), "f", fl, "time", t[rows]).T
+        try:
+            Rm = _grid_matrix(m.inverse_transform(m.scores()), "x", xl, T2, M2)
+            scale = float(np.max(np.abs(X)))
+            acc.embedded("reconstruction", Rm, Rd, rows, cols, scale=scale)
+            inner = Rm[np.ix_(rows, cols)]
+            acc.clauses.add("reconstruction_vs_input")
+            if np.all(np.isfinite(inner)):  # all modes kept: the input comes back at the remaining cells
+                e = float(np.max(np.abs(inner - X[np.ix_(rows, cols)]))) / scale
+                if not e <= 1e-8:
+                    acc.bad("reconstruction_vs_input", "full-rank reconstruction differs from the input at the remaining cells by %.3e (relative)" % e)
+        except D.LabelError as e:
+            acc.bad("reconstruction_labels", str(e))
+    return acc.result(k=int(k), ragged=bool(acc.feats["ragged"] and acc.numeric))
+
+
 def _run_single_listitem(case, seed):
     """the two list items miss samples at different positions: refuse, or treat the union as deleted."""
     n, model, stage = case["n"], case["model"], case["stage"]
@@ -673,24 +789,31 @@ def _cross_plain(M, rows, cols, which):
     return xr.DataArray(M[np.ix_(rows, cols)], dims=("time", dim), coords={"time": _tlab(M.shape[0])[rows], dim: np.asarray(cols) * 7 + 1}, name=which)
 
 
-def _fit_cross(model, dx, dy, k):
+CROSS_BASE = {"MCARotator": "MCA", "CPCCARotator": "CPCCA"}
+
+
+def _fit_cross(model, dx, dy, k, pca=None):
+    """`pca`: None -> use_pca=False; "all" or an int -> use_pca=True with that many PCs in both fields."""
     import xeofs as xe
 
-    kw = dict(n_modes=k, standardize=False, use_coslat=False, use_pca=False, solver="full", random_state=3)
-    if model == "CPCCA":
+    kw = dict(n_modes=k, standardize=False, use_coslat=False, use_pca=pca is not None, solver="full", random_state=3)
+    if pca is not None:
+        kw["n_pca_modes"] = pca
+    bname = CROSS_BASE.get(model, model)
+    if bname == "CPCCA":
         base = xe.cross.CPCCA(alpha=0.5, **kw)
     else:
-        base = xe.cross.MCA(**kw)
+        base = getattr(xe.cross, bname)(**kw)  # MCA, CCA, RDA
     base.fit(dx, dy, dim="time")
-    if model != "MCARotator":
+    if model not in CROSS_BASE:
         return base
-    rot = xe.cross.MCARotator(n_modes=k, power=1)
+    rot = getattr(xe.cross, model)(n_modes=k, power=1)
     rot.fit(base)
     return rot
 
 
 def _cross_sv(m, model, modes):
-    name = "squared_covariance" if model == "MCARotator" else "singular_values"
+    name = "squared_covariance" if model in CROSS_BASE else "singular_values"
     return np.asarray(m.data[name].sel(mode=modes).values, dtype=float)
 
 
@@ -706,8 +829,11 @@ def _run_cross_mask(case, seed):
     modes = np.arange(1, k + 1)
     t = _tlab(n)
     aligned = sx == sy
-    tol = TOL_ROT if model == "MCARotator" else 1e-8
+    pca = case.get("pca")
+    tol = TOL_ROT if model in CROSS_BASE else 1e-8
     feats = dict(aligned=aligned)
+    if pca is not None:
+        feats["use_pca"] = True
     if not aligned:
         feats["same_count"] = len(sx) == len(sy)
     if fx or fy:
@@ -719,14 +845,14 @@ def _run_cross_mask(case, seed):
         warnings.simplefilter("ignore")
         d = None
         try:
-            d = _fit_cross(model, _cross_plain(X, rows, cx, "X"), _cross_plain(Y, rows, cy, "Y"), k)
+            d = _fit_cross(model, _cross_plain(X, rows, cx, "X"), _cross_plain(Y, rows, cy, "Y"), k, pca)
         except RuntimeError as e:
             if aligned:
-                return _nonconvergence(e, lambda: _fit_cross(model, dx, dy, k))
+                return _nonconvergence(e, lambda: _fit_cross(model, dx, dy, k, pca))
             if not _is_nonconvergence(e):
                 raise
         try:
-            m = _fit_cross(model, dx, dy, k)
+            m = _fit_cross(model, dx, dy, k, pca)
         except Exception as e:  # noqa: BLE001
             if aligned:
                 raise  # fully missing samples at the same positions: the quantifier demands a result
@@ -746,7 +872,7 @@ def _run_cross_mask(case, seed):
 
                 px = xr.DataArray(X[np.ix_(kx, cx)], dims=("time", "fx"), coords={"time": np.arange(len(kx)), "fx": np.arange(len(cx))})
                 py = xr.DataArray(Y[np.ix_(ky, cy)], dims=("time", "fy"), coords={"time": np.arange(len(ky)), "fy": np.arange(len(cy))})
-                sv_p = _cross_sv(_fit_cross(model, px, py, k), model, modes)
+                sv_p = _cross_sv(_fit_cross(model, px, py, k, pca), model, modes)
                 if np.max(np.abs(_cross_sv(m, model, modes) - sv_p)) <= 1e-7 * max(sv_p[0], 1e-300):
                     acc.V[-1]["msg"] += " -- equals the fit that pairs row i of compacted X with row i of compacted Y (X rows %s with Y rows %s)" % (kx, ky)
                     acc.V[-1]["features"]["alignment"] = "positionwise_after_compaction"
@@ -801,7 +927,7 @@ def _run_cross_mask(case, seed):
             acc.embedded("reconstruction_Y", R2m, R2d, rows, cy, tol=tol, scale=float(np.max(np.abs(Y))))
         except D.LabelError as e:
             acc.bad("reconstruction_labels", str(e))
-    return acc.result()
+    return acc.result(use_pca=pca is not None)
 
 
 def _run_cross_isolated(case, seed):
@@ -830,6 +956,7 @@ def _run_cross_isolated(case, seed):
 
 _RUN = {
     "single_mask": _run_single_mask,
+    "single_mask2": _run_single_mask2,
     "single_listitem": _run_single_listitem,
     "isolated": _run_isolated,
     "transform_mismatch": _run_transform_mismatch,
@@ -875,6 +1002,12 @@ def vacuity(outcomes, results, tier):
     need = {"components", "scores", "transform", "reconstruction", "scores_X", "components_X", "components_Y", "reconstruction_X"}
     if not need <= seen_nan and not any(o == "violation" for o in outcomes):
         return "NaN placement never evaluated for: %s" % sorted(need - seen_nan)
+    any_viol = any(o == "violation" for o in outcomes)
+    pca_rec = any((r.get("info") or {}).get("use_pca") and "reconstruction_X" in (r.get("info") or {}).get("nan_labels", []) for r in results)
+    if not pca_rec and not any_viol:
+        return "no cross-set model with the PCA step had its reconstruction checked at deleted samples"
+    if not any((r.get("info") or {}).get("ragged") for r in results) and not any_viol:
+        return "no two-sample-dimension input with unevenly spread missing samples was compared"
     for kd in _RUN:
         if kd not in kinds:
             return "case family %s is empty" % kd
